@@ -444,8 +444,7 @@ func forceGC(churn bool) (timeouts int) {
 			timeouts++
 		}
 	}
-	runtime.GC()
-	debug.FreeOSMemory()
+	debug.FreeOSMemory() // a third collection, then returns the freed spans to the OS
 	if churn {
 		const pat = 0xa5a5a5a5a5a5a5a5
 		sizes := []int{16, 24, 32, 48, 64, 80, 96, 112, 128, 192, 256, 512}
